@@ -242,3 +242,21 @@ BOUNDS = {"quick": {"classes": "6 JSON families x dict/list (the only classes wi
 BOUNDS["thorough"] = BOUNDS["quick"]
 ASSUMPTIONS = ["LockModel: single-threaded owner counts standing for RLocks; the replay uses real RLocks and a second real thread that must acquire every lock of the class within 1 s", "environment models of vf/env_model.py"]
 OUTSIDE = ["faults raised by something other than the file system, the codec or validation", "deadlocks (part b, Engine C)"]
+
+
+def main(tier, seed):
+    """Engine A parts (a), (c) and Engine C part (b), one evidence file."""
+    import harness.C10 as me
+    import harness.C10b as b
+    from vf import run as vrun, conc_run
+    import time
+
+    t0 = time.time()
+    res = vrun.verify_A(me, tier, seed)
+    c = conc_run.run(PID, tier, seed, b.specs(tier), me, b.fingerprint, emit=False)
+    for line in c["lines"]:
+        print(line)
+    res["wall_s"] = round(time.time() - t0, 2)
+    hang_only = {k: v for k, v in c["coverage"].items() if k in ("programs", "verdict_counts", "solver_queries", "solver_seconds", "traces_validated_against_impl", "known_findings_hit", "unresolved_candidates", "samples", "verdict")}
+    code_a = vrun.finish(res, me, extra_cov={"engine_C_deadlock_part": hang_only})
+    return max(code_a, c["code"]) if 1 not in (code_a, c["code"]) else 1
